@@ -23,7 +23,7 @@ LEVEL_TEXT = ("Proof from extracted read/write sets: for each of the 12 purge st
               "have already been purged; the retained collection is an order-preserving filter of the old one and no other model field is written. "
               "Together these give 'removes exactly the unreachable items', idempotence and 'no broken link' for every model; 'changes no indicator' is not decided.")
 LEVEL_NOTE = "Trusted: rustc MIR, std iterator/HashSet semantics, the reference graph transcribed in ctecheck/spec/refgraph.py."
-TECHNIQUE = "def-use element provenance through iterator chains + write-set/ordering analysis on MIR"
+TECHNIQUE = "def-use element provenance through iterator chains + write-set/ordering analysis on MIR (incl. staleness of precomputed reference sets)"
 FIXTURE_EXPECT = ["c16.used"]
 
 ORDER_KEEPING = {"iter", "into_iter", "cloned", "copied", "filter", "collect", "drain"}
